@@ -15,4 +15,6 @@ def check(ctx, rep):
     from ..rules import tok as _tok
     _tok.tok_11(ctx, rep)        # f-string text: start position recorded where the first piece is matched
     rxr.rx_12(ctx, rep)          # the BOM is zero-width only as the first character
+    from ..rules import dim as _pos1
+    _pos1.pos_1(ctx, rep)       # an offset is never recovered by searching for the text
     rep.note('Not decided: the positions themselves (numeric).')
